@@ -107,6 +107,25 @@ def close (recheck : Bool) (s : CS D) (h : Nat) : CS D × String :=
           ({ s1 with fs := s1.fs.set k.name none }, "err full-needed")
         else ({ s1 with fs := { s1.fs.set k.name (finalDir k) with fullNeeded := false } }, "ok")
 
+/-- Sink.Close when the final rename fails (the snapshot's final name is taken by a plain file):
+every step before the rename has happened, nothing after it -/
+def closeRenameFails (s : CS D) (h : Nat) : CS D × String :=
+  match getSink s h with
+  | none => (s, "nosink")
+  | some k =>
+    if !k.opened then (s, "ok")
+    else
+      let s1 := putSink s h { k with opened := false }
+      match k.hdr with
+      | .none => ({ s1 with fs := s1.fs.set k.name none }, "err incomplete")
+      | .rejected => ({ s1 with fs := s1.fs.set k.name none }, "err incomplete")
+      | .full _ _ .short => (s1, "err incomplete")
+      | .full _ _ .badcrc => (s1, "err crc")
+      | .full _ _ .ok => (s1, "err rename")
+      | .inc _ =>
+        if s.fs.fullNeeded then ({ s1 with fs := s1.fs.set k.name none }, "err full-needed")
+        else (s1, "err rename")
+
 /-- Sink.Cancel -/
 def cancel (s : CS D) (h : Nat) : CS D × String :=
   match getSink s h with
@@ -167,6 +186,7 @@ inductive COp (D : Type) where
   | winc (h : Nat) (wals : List Nat)
   | close (h : Nat)
   | cancel (h : Nat)
+  | closeRenameFails (h : Nat)
   | setFull
   | reopen
   | crashClose (h : Nat) (c : CloseCut)
@@ -179,6 +199,7 @@ def stepOp (A : DbAlg D) (s : CS D) : COp D → CS D × String
   | .winc h ws => writeInc s h ws
   | .close h => close true s h
   | .cancel h => cancel s h
+  | .closeRenameFails h => closeRenameFails s h
   | .setFull => (setFull s, "ok")
   | .reopen => reopen A s
   | .crashClose h c => (crashClose s h c, "ok")
